@@ -230,6 +230,14 @@ def run(case, lockdir=None):
     viol = []
     trace = []
     stats = {'max_depth': 0, 'failed_acquires': 0, 'faults': 0, 'ops': 0}
+    saved0 = None
+    if case.get('fd0_free'):
+        # a process whose descriptor 0 is free (daemon started with stdin closed): the lock file gets descriptor 0
+        try:
+            saved0 = real_os.dup(0)
+            real_os.close(0)
+        except OSError:
+            saved0 = None
     fds0 = len(real_os.listdir('/proc/self/fd'))
     try:
         reent = case['reentrant']
@@ -424,4 +432,9 @@ def run(case, lockdir=None):
             except OSError:
                 pass
         F.threading, F.time, F.fcntl, F.os = saved
+        if saved0 is not None:
+            try:
+                real_os.dup2(saved0, 0)
+            finally:
+                real_os.close(saved0)
     return {'violations': viol, 'trace': trace, 'stats': stats, 'os_calls': list(W.calls)}
